@@ -1,7 +1,7 @@
 (* Property C13: moving reflections to symmetry-equivalent indices preserves the data they carry.
    Statements only; proofs in Move/MoveProofs.v. Quantified over every row of the regenerated table,
    both ASU conventions, every hkl, and every symmetry-consistent phase function on the sphere. *)
-From GV Require Import Sym.AsuDefs Sym.AsuProofs Sym.AsuLift Sym.AsuSpec Sym.OpProofs Move.Move Move.MoveProofs.
+From GV Require Import Sym.AsuDefs Sym.AsuProofs Sym.AsuLift Sym.AsuSpec Sym.OpProofs Move.Move Move.MoveProofs Move.Expand Move.ExpandProofs.
 Local Open Scope Z_scope.
 
 (* the algebraic heart: phase transport composes, h.t1 + (hR1).t2 = h.(t1 + R1 t2) *)
@@ -36,5 +36,46 @@ Theorem C13_unmerged_roundtrip : forall r tnt g, In r sg_table -> operations r =
 Proof. exact table_original_restored. Qed.
 Print Assumptions C13_unmerged_roundtrip.
 
+(* expand_to_p1, one reflection, ANY operation list (no group property needed) and any hkl:
+   (i) the original index and the appended copies are pairwise distinct and contain no Friedel pair;
+   (ii) every copy is the image under one of the operations after the first, carrying exactly that operation's
+        phase shift -(h.t); (iii) every such image is present itself or as its Friedel mate. *)
+Theorem C13_expand_to_p1_spec : forall g hkl,
+  let r := expand_entry g hkl in
+  friedel_free (kept hkl r) /\
+  (forall c, In c r -> from_ops hkl (tl (sym_ops g)) c) /\
+  (forall o, In o (tl (sym_ops g)) ->
+     In (apply_to_hkl o hkl) (kept hkl r) \/ In (neg_v3 (apply_to_hkl o hkl)) (kept hkl r)).
+Proof. exact expand_entry_spec. Qed.
+Print Assumptions C13_expand_to_p1_spec.
+
+(* for every tabulated group the skipped first operation is the identity, so the WHOLE orbit is covered *)
+Theorem C13_expand_to_p1_covers_orbit : forall r g, In r sg_table -> operations r = HOk g ->
+  forall hkl o, In o (sym_ops g) ->
+    In (apply_to_hkl o hkl) (kept hkl (expand_entry g hkl)) \/
+    In (neg_v3 (apply_to_hkl o hkl)) (kept hkl (expand_entry g hkl)).
+Proof. exact table_expand_covers_orbit. Qed.
+Print Assumptions C13_expand_to_p1_covers_orbit.
+
+(* and the phase stored with each copy is the true phase of the copy's index *)
+Theorem C13_expand_to_p1_phase : forall g (phi : v3 -> Z),
+  (forall o h, In o (sym_ops g) ->
+     (phi (divide_hkl (apply_to_hkl_nodiv o h)) - (phi h - dot h (tran o))) mod 24 = 0) ->
+  forall hkl c, In c (expand_entry g hkl) -> (phi hkl + cp_shift c - phi (cp_hkl c)) mod 24 = 0.
+Proof. exact expand_phase_correct. Qed.
+Print Assumptions C13_expand_to_p1_phase.
+
+(* non-vacuity: a general reflection in P 21 21 21 (row of number 19) gets its three rotated images with
+   their screw-axis phase shifts *)
+Example C13_expand_example :
+  match find (fun r => sg_number r =? 19) sg_table with
+  | Some r => match operations r with
+              | HOk g => map (fun c => (cp_hkl c, cp_shift c mod 24)) (expand_entry g (1, 2, 3))
+              | _ => []
+              end
+  | None => []
+  end = [((-1, -2, 3), 0); ((1, -2, -3), 12); ((-1, 2, -3), 12)].
+Proof. vm_compute. reflexivity. Qed.
+
 (* Not proved here (decided by oracles on the implementation only; see DESIGN.md):
-   expand_to_p1 orbit coverage, Hendrickson-Lattman coefficient rotation, reindexing coherence. *)
+   Hendrickson-Lattman coefficient rotation, reindexing coherence. *)
